@@ -109,7 +109,37 @@ func snapshotPrice(s *Snapshot, denom string) sdkmath.LegacyDec {
 }
 
 func CheckC05Chain(h *History, blk *BlockRecord) []Violation {
-	return poolValueCheck(h, blk, c05QuietTx, "C05/per-share-value-fell", "c05", "only joins/exits")
+	out := poolValueCheck(h, blk, c05QuietTx, "C05/per-share-value-fell", "c05", "only joins/exits")
+	return append(out, c05Claims(h, blk)...)
+}
+
+// c05Claims: the liquidity providers' claims on a pool are the pool shares credited to them. If the credited shares
+// add up to more than the shares that exist, somebody can withdraw a pro-rata slice that belongs to the others –
+// value leaves the other providers although the value *per share* never moves.
+func c05Claims(h *History, blk *BlockRecord) []Violation {
+	var out []Violation
+	s := h.Cur
+	for _, p := range s.Pools {
+		d := ammtypes.GetPoolShareDenom(p.PoolId)
+		credited := sdkmath.ZeroInt()
+		for _, c := range s.Commitments {
+			for _, ct := range c.CommittedTokens {
+				if ct.Denom == d {
+					credited = credited.Add(ct.Amount)
+				}
+			}
+		}
+		for addr, bal := range s.Bal {
+			_ = addr
+			if addr != modAddr(ctypes.ModuleName) {
+				credited = credited.Add(bal.AmountOf(d)) // liquid shares, wherever they sit
+			}
+		}
+		if credited.GT(p.TotalShares.Amount) {
+			out = append(out, Violation{Sig: "C05/claims-exceed-shares", Detail: fmt.Sprintf("pool %d: providers are credited %s shares, the pool has issued %s (height %d; %s)", p.PoolId, credited, p.TotalShares.Amount, s.Height, blockSummary(blk))})
+		}
+	}
+	return out
 }
 
 // c03SwapTx: the block may also hold swaps (every form). Chain-level part of C03: a swap never pays out
